@@ -240,6 +240,7 @@ func (s *Stream) next(ctx context.Context, block bool) bool {
 		// run concurrently with the wait
 		signal := s.signal
 		s.mutex.Unlock()
+		verifPoint("stream.beforeWait")
 
 		// await next event
 		select {
